@@ -118,9 +118,12 @@ def run_case(ctx, kind_, idx):
                 r = int(rng.integers(1, 7))
                 info["r"] = r
                 wv = Weaver(x.copy(), y.copy())
-                if rng.integers(0, 2):
-                    wv.shift_x(1.5)
-                bx, by = (np.array(a).copy() for a in wv.get())
+                if rng.integers(0, 3):
+                    from . import _weaver_ops as W
+                    info["history"] = W.random_history(rng, wv, 1, 3, allow=W.DOMAIN_OPS, max_len=120)
+                bx, by = (np.array(a, dtype=float).copy() for a in wv.get())
+                if len(bx) < 2:
+                    return
                 wv.repeat(r)
                 ctx.judged()
                 ctx.monitor("c12:weaver")
